@@ -15,7 +15,7 @@ Init == l = 1 /\ tid = 0 /\ status = "ok" /\ S = [none |-> 0]
 Setup == Is("setup") /\ Verdict /\ tid' = Ev.tid /\ status' = "ok" /\ S' = Ev
 Eof == Is("eof") /\ Verdict /\ UNCHANGED <<tid, status, S>>
 Conf == /\ Is("config")
-        /\ LET want == Canon(S.fv)   got == Ev.proj IN
+        /\ LET want == Canon(S.fv, S.first)   got == Ev.proj IN
            Mark(All(<<Check("config.read", Ev.ok),
                       Check("config.times", Ev.ok => (got.start = S.start /\ got.stop = S.stop /\ got.dt = S.dt)),
                       Check("config.grid", Ev.ok => (got.gridfile = want.gridfile /\ got.subgrid = want.subgrid)),
